@@ -39,6 +39,7 @@ ASSUMPTIONS = [
     "run) are recorded as diagnostics only and never decide",
 ]
 NSHARDS = {'quick': 16, 'thorough': 16}
+RULE += (' Body kinds added during the build: echo of a value through sys.displayhook / reading builtins._, annotated assignment / reading __annotations__, an awaited part that leaves a task behind / a later await, module requirements sharing a package; probes module-patch (the module changed through its module object between runs) and module-installs-underscore (a module that installs builtins._ when imported, with passing, echoing and raising single-mode parts).')
 
 BODIES = [
     ('bind', ['>>> try:', '...     SHARED', '... except NameError:', '...     print("fresh")', '... else:',
